@@ -297,11 +297,11 @@ opt_uptr_PrekillHookInvocation Engine__firePrekillHook(Engine *self, CgroupConte
   __CPROVER_decreases(it.i)
 
 /* ---- lambdas (predicates) ---- */
-_Bool Engine__removeDropInConfig__lambda_pred(str_t tag, Engine *self, Engine_DropInRuleset dir)
+_Bool Engine__removeDropInConfig__lambda_pred(str_t tag, Engine_DropInRuleset dir)
   __CPROVER_assigns() __CPROVER_ensures(__CPROVER_return_value == (dir.tag == tag)); /*@C13*/
-_Bool Engine__removeDropInConfig__lambda_1(str_t tag, Engine *self, Engine_TaggedPrekillHook tagged_hook)
+_Bool Engine__removeDropInConfig__lambda_1(str_t tag, Engine_TaggedPrekillHook tagged_hook)
   __CPROVER_assigns() __CPROVER_ensures(__CPROVER_return_value == (tagged_hook.dropin_tag.has && tagged_hook.dropin_tag.val == tag)); /*@C13,C07*/
-_Bool Engine__addDropInRuleset__lambda_1(uptr_Ruleset ruleset, Engine *self, Engine_BaseRuleset b)
+_Bool Engine__addDropInRuleset__lambda_1(uptr_Ruleset ruleset, Engine_BaseRuleset b)
   __CPROVER_requires(ruleset != 0 && b.ruleset != 0)
   __CPROVER_assigns() __CPROVER_ensures(__CPROVER_return_value == (b.ruleset == ruleset)); /*@C13*/
 
@@ -316,6 +316,6 @@ void h_Engine__addDropInRuleset(void) { Engine *self; str_t t; uptr_Ruleset r; H
 void h_Engine__addDropInConfig(void) { Engine *self; str_t t; DropInUnit u; HAVOC_ENG(); Engine__addDropInConfig(self, t, u); CANARY; }
 void h_Engine__removeDropInConfig(void) { Engine *self; str_t t; HAVOC_ENG(); Engine__removeDropInConfig(self, t); CANARY; }
 void h_Engine__firePrekillHook(void) { Engine *self; CgroupContext cg; OomdContext c; HAVOC_ENG(); Engine__firePrekillHook(self, cg, c); CANARY; }
-void h_Engine__lambda_pred(void) { str_t t; Engine_DropInRuleset d; Engine__removeDropInConfig__lambda_pred(t, 0, d); CANARY; }
-void h_Engine__lambda_hookpred(void) { str_t t; Engine_TaggedPrekillHook d; Engine__removeDropInConfig__lambda_1(t, 0, d); CANARY; }
-void h_Engine__lambda_find(void) { uptr_Ruleset r; Engine_BaseRuleset b; Engine__addDropInRuleset__lambda_1(r, 0, b); CANARY; }
+void h_Engine__lambda_pred(void) { str_t t; Engine_DropInRuleset d; Engine__removeDropInConfig__lambda_pred(t, d); CANARY; }
+void h_Engine__lambda_hookpred(void) { str_t t; Engine_TaggedPrekillHook d; Engine__removeDropInConfig__lambda_1(t, d); CANARY; }
+void h_Engine__lambda_find(void) { uptr_Ruleset r; Engine_BaseRuleset b; Engine__addDropInRuleset__lambda_1(r, b); CANARY; }
